@@ -1,6 +1,7 @@
 CONSTANTS
-  Leaves = {"c1", "c2", "c3", "c4", "c5", "l1", "l2"}
-  Relays = {"r1", "r2"}
+  Leaves = {"c1", "c2", "c3", "c4", "c5", "c6", "l1", "l2"}
+  Relays = {"r1", "r2", "r3"}
+  RHome <- GRHome
   Home <- GHome
   TaskIds = {"t1", "t2", "t3", "t4"}
   Payloads = {"p1", "p2", "p3", "p4", "p5", "p6"}
